@@ -55,6 +55,14 @@ impl SeqGen {
                     _ => 0.0009765625,
                 }
             }
+            5 => {
+                // alternating signs: the running total keeps returning to (nearly) zero
+                if i % 2 == 0 {
+                    self.param
+                } else {
+                    -self.param
+                }
+            }
             _ => {
                 // large head, then small increments
                 if i == 0 {
@@ -233,6 +241,28 @@ pub fn arith_regs_prog<F: FElem>(toks: &[String]) -> String {
                     let v: Vec<F> = (0..b).map(|_| F::from64(g.next())).collect();
                     StatisticsOps::extend(top, &v).unwrap();
                     left -= b;
+                }
+                i += 6;
+            }
+            "L" => {
+                // left fold: `nreg` fresh states of `k` generated observations each, merged into the long-lived
+                // state on top of the stack (by `+` and by `+=` alternately)
+                let id: u64 = toks[i + 1].parse().unwrap();
+                let seed: u64 = toks[i + 2].parse().unwrap();
+                let param = f64::from_bits(u64::from_str_radix(&toks[i + 3][1..], 16).unwrap());
+                let nreg: usize = toks[i + 4].parse().unwrap();
+                let k: usize = toks[i + 5].parse().unwrap();
+                let mut g = SeqGen::new(id, seed, param);
+                for j in 0..nreg {
+                    let v: Vec<F> = (0..k).map(|_| F::from64(g.next())).collect();
+                    let mut part = Arithmetic::<F>::new();
+                    StatisticsOps::extend(&mut part, &v).unwrap();
+                    if j % 2 == 0 {
+                        let acc = st.pop().unwrap();
+                        st.push(acc + part);
+                    } else {
+                        *st.last_mut().unwrap() += part;
+                    }
                 }
                 i += 6;
             }
@@ -462,6 +492,17 @@ pub fn c08(out: &mut Vec<String>, rng: &mut Rng, tier: &str) {
             let t = random_tree::<f32>(rng, &chunks);
             out.push(format!("C08 kahanA g {} => {}", t.join(" "), arith_regs_prog::<f32>(&t)));
         }
+    }
+    // a long-lived state into which many small fresh states are merged (left fold), on cancelling and on
+    // same-sign data: both statistics keep the bound of the history
+    for (nreg, k, id, param) in [(20_000usize, 1usize, 5u64, 1.1f64), (30_000, 2, 5, 0.3), (10_000, 3, 5, 1.7), (20_000, 1, 1, 1.1), (5_000, 4, 2, 1.0)] {
+        let nreg = if tier == "thorough" { nreg * 10 } else { nreg };
+        let toks: Vec<String> = vec![
+            "E".into(), "L".into(), format!("{}", id), format!("{}", rng.next() >> 1), param.enc(),
+            format!("{}", nreg), format!("{}", k), "q".into(),
+        ];
+        out.push(format!("C08 kahanA g {} => {}", toks.join(" "), arith_regs_prog::<f32>(&toks)));
+        out.push(format!("C08 kahanA f {} => {}", toks.join(" "), arith_regs_prog::<f64>(&toks)));
     }
     let long_n: Vec<usize> = if tier == "thorough" { vec![200_000, 2_000_000, 8_000_000] } else { vec![100_000, 400_000] };
     for n in long_n {
